@@ -15,6 +15,12 @@ class NoEval(Exception):
     pass
 
 
+class Thrown(Exception):
+    """a callee evaluated recursively raised a Cello exception"""
+    def __init__(self, why):
+        self.why = why
+
+
 U64 = {'unsigned long', 'size_t', 'uint64_t', 'unsigned long long', 'uintptr_t', 'unsigned long int'}
 S64 = {'long', 'int64_t', 'long long', 'ssize_t', 'ptrdiff_t', 'intptr_t', 'long int'}
 S32 = {'int', 'int32_t'}
@@ -65,7 +71,8 @@ def common(t1, t2):
 
 
 class CInt:
-    def __init__(self, P, fn, atoms=None, call=None, N=None, max_steps=2000):
+    def __init__(self, P, fn, atoms=None, call=None, N=None, max_steps=2000, recurse=False, depth=0):
+        self.recurse, self.depth = recurse, depth
         self.P, self.fn = P, fn
         self.g = P.cfg(fn)
         self.N = N or util.Norm(P, fn, expand_locals=False, inline=False)
@@ -177,7 +184,23 @@ class CInt:
             if key in self.atoms:
                 return self.atoms[key]
             if self.call is not None:
-                return self.call(ir.callee_name(e), e, self)
+                try:
+                    return self.call(ir.callee_name(e), e, self)
+                except NoEval:
+                    if not self.recurse:
+                        raise
+            if self.recurse and self.depth < 4 and ir.callee_name(e):
+                callee = self.P.fn(ir.callee_name(e), required=False)
+                if callee is not None and callee.get('body') is not None:
+                    args = [self.ev(a) for a in e[2]]
+                    sub = CInt(self.P, callee, atoms=self.atoms, call=self.call, max_steps=self.max_steps, recurse=True, depth=self.depth + 1)
+                    sub.atoms = self.atoms           # shared memory
+                    r = sub.run(args)
+                    if r[0] == 'ret':
+                        return r[1]
+                    if r[0] == 'term':
+                        raise Thrown(r[1])
+                    raise NoEval('in %s: %s' % (callee['name'], r[1]))
             raise NoEval('call %s' % ir.fmt(e)[:40])
         if k == 'un':
             op = e[1]
@@ -352,6 +375,8 @@ class CInt:
                                     self.locals.pop(t[2], None)
                                 else:
                                     self.atoms.pop(self.atom_key(t), None)
+            except Thrown as t:
+                return ('term', t.why, node)
             except NoEval as x:
                 return ('stuck', str(x), node)
             if not node['succ']:
